@@ -45,6 +45,9 @@ type c08Target struct {
 	name  string
 	model hist.ModelKind
 	cap   int
+	buf   int
+	held  func() int // values held by the wrapped structure (only where the wrapped structure refills itself in the background)
+	close func()
 	offer func(v int64, alt bool) error
 	take  func(alt bool) (int64, error)
 }
@@ -91,6 +94,15 @@ func c08MakeTarget(kind int) *c08Target {
 				}
 				return q.Poll()
 			}}
+	case 5:
+		inner := fpgo.NewBufferedChannelQueue[int64](2, 6, 4)
+		inner.SetLoadFromPoolDuration(50 * time.Microsecond)
+		q := fpgo.NewConcurrentQueue[int64](inner)
+		return &c08Target{name: "ConcurrentQueue(BufferedChannelQueue(2,6))", model: hist.RelaxedBuffered, cap: 2, buf: 6,
+			held:  func() int { return inner.Count() },
+			close: func() { inner.Close() },
+			offer: func(v int64, alt bool) error { return q.Offer(v) },
+			take:  func(alt bool) (int64, error) { return q.Poll() }}
 	default:
 		s := fpgo.NewConcurrentStack[int64](&c08Slice{})
 		return &c08Target{name: "ConcurrentStack(harness slice stack)", model: hist.LIFO,
@@ -171,17 +183,35 @@ func c08Scenario(id string, kind, producers, consumers, opsEach int, long bool, 
 		wg.Wait()
 		// drain (single goroutine)
 		drained := true
+		strandedFor := time.Duration(0)
 		guard(n, func() {
 			for k := 0; k < producers*opsEach+n*opsEach+8; k++ {
 				i := rec.Begin(n, "take", 0)
 				v, err := tg.take(false)
 				rec.End(n, i, v, resOf(err))
 				if err != nil {
+					// a structure that refills its front in the background may be empty for a moment; but with nothing else
+					// running, values it still holds must become removable
+					if tg.held != nil && tg.held() > 0 && strandedFor < time.Second {
+						time.Sleep(200 * time.Microsecond)
+						strandedFor += 200 * time.Microsecond
+						k--
+						continue
+					}
 					return
 				}
+				strandedFor = 0
 			}
 			drained = false
 		})
+		if tg.held != nil && tg.held() > 0 && strandedFor >= time.Second {
+			c.Violationf("removal-reports-empty-although-values-are-held", map[string]any{"scenario": id, "target": tg.name},
+				"%s: with no other operation in progress every removal reported empty for 1 s (20000 loader intervals) although the wrapped queue holds %d accepted values", tg.name, tg.held())
+			drained = false
+		}
+		if tg.close != nil {
+			defer tg.close()
+		}
 		ops := rec.Ops()
 		c.Eval(1)
 		c.Count("ops", int64(len(ops)))
@@ -196,9 +226,9 @@ func c08Scenario(id string, kind, producers, consumers, opsEach int, long bool, 
 			c.Violationf("history:"+class, r2, "%s: %s", tg.name, msg)
 		}
 		if !long {
-			switch hist.Linearizable(hist.Model(tg.model, tg.cap, 0), ops, 10*time.Second) {
+			switch hist.Linearizable(hist.Model(tg.model, tg.cap, tg.buf), ops, 10*time.Second) {
 			case "illegal":
-				c.Violationf("not-linearizable:"+[...]string{"FIFO", "LIFO", "BoundedFIFO"}[tg.model], map[string]any{"scenario": id, "target": tg.name, "history": hist.Describe(ops, 80)},
+				c.Violationf("not-linearizable:"+[...]string{"FIFO", "LIFO", "BoundedFIFO", "RelaxedBuffered"}[tg.model], map[string]any{"scenario": id, "target": tg.name, "history": hist.Describe(ops, 80)},
 					"%s: the recorded history of %d operations has no linearization", tg.name, len(ops))
 				c.Count("porcupine.illegal", 1)
 			case "unknown":
@@ -308,8 +338,108 @@ func c08Burst(id string, kind, workers, backlog, rounds int, seed int64) core.Sc
 	}}
 }
 
+// one LinkedListQueue used through BOTH wrappers, in phases that do not overlap: a ConcurrentQueue phase (Offer/Poll,
+// something is left inside), then a ConcurrentStack phase (Push/Pop), then a drain through Pop; and the other way round.
+func c08Phased(id string, workers, each int, queueFirst bool, seed int64) core.Scenario {
+	return core.Scenario{ID: id, Class: "ConcurrentQueue/Stack", Run: func(c *core.Ctx) {
+		inner := fpgo.NewLinkedListQueue[int64]()
+		q := fpgo.NewConcurrentQueue[int64](inner)
+		st := fpgo.NewConcurrentStack[int64](inner)
+		rec := hist.NewRecorder(workers + 1)
+		var pmu sync.Mutex
+		panics := map[string]string{}
+		guard := func(proc int, fn func()) {
+			defer func() {
+				if r := recover(); r != nil {
+					pmu.Lock()
+					panics[core.NormalizePanic(fmt.Sprint(r))+"@"+core.TopRepoFrame(3)] = fmt.Sprintf("proc %d: %v", proc, r)
+					pmu.Unlock()
+				}
+			}()
+			fn()
+		}
+		seqs := make([]int, workers+1)
+		phase := func(useQueue bool, rounds int) {
+			var wg sync.WaitGroup
+			for p := 0; p < workers; p++ {
+				wg.Add(1)
+				go func(p int) {
+					defer wg.Done()
+					rng := rand.New(rand.NewSource(seed*977 + int64(p) + int64(rounds)))
+					for k := 0; k < rounds; k++ {
+						guard(p, func() {
+							if rng.Intn(5) < 3 { // more insertions than removals: something is left for the next phase
+								seqs[p]++
+								v := hist.Value(p+1, seqs[p])
+								i := rec.Begin(p, "offer", v)
+								var err error
+								if useQueue {
+									err = q.Offer(v)
+								} else {
+									err = st.Push(v)
+								}
+								rec.End(p, i, 0, resOf(err))
+							} else {
+								i := rec.Begin(p, "take", 0)
+								var v int64
+								var err error
+								if useQueue {
+									v, err = q.Poll()
+								} else {
+									v, err = st.Pop()
+								}
+								rec.End(p, i, v, resOf(err))
+							}
+						})
+					}
+				}(p)
+			}
+			wg.Wait()
+		}
+		for r := 0; r < 3; r++ {
+			phase(queueFirst, each+r)
+			phase(!queueFirst, each+r)
+		}
+		drained := false
+		guard(workers, func() {
+			for k := 0; k < workers*each*8+16; k++ {
+				i := rec.Begin(workers, "take", 0)
+				var v int64
+				var err error
+				if k%2 == 0 {
+					v, err = st.Pop()
+				} else {
+					v, err = q.Poll()
+				}
+				rec.End(workers, i, v, resOf(err))
+				if err != nil {
+					drained = true
+					return
+				}
+			}
+		})
+		ops := rec.Ops()
+		c.Eval(1)
+		c.Count("ops", int64(len(ops)))
+		c.Distinct(id)
+		rep := map[string]any{"scenario": id, "target": "one LinkedListQueue behind a ConcurrentQueue and a ConcurrentStack, phases do not overlap", "queue_phase_first": queueFirst}
+		for k, v := range panics {
+			c.Violationf("panic:"+k, rep, "queue phase / stack phase over one LinkedListQueue: a call panicked: %s", v)
+		}
+		if n := inner.Count(); len(panics) == 0 && drained && n != 0 {
+			c.Violationf("phased:count-after-drain", rep, "after draining, the wrapped LinkedListQueue reports Count()=%d", n)
+		}
+		for class, msg := range hist.ExactlyOnce(ops, drained && len(panics) == 0, false) {
+			c.Violationf("history:"+class, map[string]any{"scenario": id, "history": hist.Describe(ops, 60)}, "queue phase / stack phase over one LinkedListQueue: %s", msg)
+		}
+	}}
+}
+
 func c08Scenarios(c *core.Ctx, race bool) []core.Scenario {
 	var out []core.Scenario
+	for i := 0; i < c.Pick(40, 400); i++ {
+		out = append(out, c08Phased(fmt.Sprintf("phased-%d-race%v", i, race), 1+i%4, 2+i%7, i%2 == 0, c.Seed*5+int64(i)))
+	}
 	for i, bl := range []int{1100, 2100, 3000, 4200, 12000} {
 		if race && i > 1 {
 			break
@@ -339,12 +469,12 @@ func c08Scenarios(c *core.Ctx, race bool) []core.Scenario {
 		if opsEach > 6 {
 			opsEach = 6
 		}
-		kind := i % 5
+		kind := i % 6
 		out = append(out, c08Scenario(fmt.Sprintf("short-%d-k%d-p%d-c%d-race%v", i, kind, p, cn, race), kind, p, cn, opsEach, false, c.Seed*7+int64(i)))
 	}
 	for i := 0; i < nLong; i++ {
 		p, cn := sizes[1+rng.Intn(4)], sizes[1+rng.Intn(4)]
-		kind := i % 5
+		kind := i % 6
 		opsEach := c.Pick(3000, 20000) / (p + cn) * 2
 		out = append(out, c08Scenario(fmt.Sprintf("long-%d-k%d-p%d-c%d-race%v", i, kind, p, cn, race), kind, p, cn, opsEach, true, c.Seed*11+int64(i)))
 	}
@@ -366,7 +496,7 @@ func init() {
 		Meta: func(c *core.Ctx) core.Meta {
 			return core.Meta{
 				Level: "exploration",
-				Rule:  "concurrent histories recorded at the client boundary (call before / return after, one monotonic clock, unique values = producer<<32|seq) against ConcurrentQueue and ConcurrentStack wrapping LinkedListQueue, ChannelQueue(3) (Offer/Poll) and a harness-provided non-thread-safe slice queue/stack; 1..16 producers x 1..16 consumers, PRNG yields; short histories (<= 40 ops, mixed roles) are checked for linearizability with porcupine against FIFO / LIFO / BoundedFIFO models after a single-threaded drain; long runs by the exactly-once / no-invention / per-producer-order checker; phased bursts (backlogs 1100..12000 built by 1 or 4 producers, removed completely by 1 or 4 consumers, then quiescent probes, 4-8 rounds, GC paused so that recycled nodes stay pooled); every call under recover; the same workload repeated in the -race build (deciding). distinct_nontrivial = distinct scenarios (workload seeds)",
+				Rule:  "concurrent histories recorded at the client boundary (call before / return after, one monotonic clock, unique values = producer<<32|seq) against ConcurrentQueue and ConcurrentStack wrapping LinkedListQueue, ChannelQueue(3) (Offer/Poll), BufferedChannelQueue(2,6) (Offer/Poll, relaxed model; a drain that sees empty while the wrapped queue still holds values for 1 s is a violation) and a harness-provided non-thread-safe slice queue/stack; one LinkedListQueue behind BOTH wrappers in non-overlapping queue / stack phases; 1..16 producers x 1..16 consumers, PRNG yields; short histories (<= 40 ops, mixed roles) are checked for linearizability with porcupine against FIFO / LIFO / BoundedFIFO models after a single-threaded drain; long runs by the exactly-once / no-invention / per-producer-order checker; phased bursts (backlogs 1100..12000 built by 1 or 4 producers, removed completely by 1 or 4 consumers, then quiescent probes, 4-8 rounds, GC paused so that recycled nodes stay pooled); every call under recover; the same workload repeated in the -race build (deciding). distinct_nontrivial = distinct scenarios (workload seeds)",
 				Assumptions: []string{"a race report inside the wrapped structure or the wrapper refutes the property (the baseline wrapper is expected to serialise every access)",
 					"ChannelQueue is wrapped through Offer/Poll only (its blocking Put/Take under the wrapper's lock are documented as blocking)"},
 			}
